@@ -69,6 +69,9 @@ func (in *dockerIn) query() string {
 		return "count_over_time(" + sel + rng + ")"
 	case "sumcount":
 		return "sum by (container) (count_over_time(" + sel + rng + "))"
+	case "maxnan":
+		// a group mixing NaN with numbers: the extreme of such a group does not depend on the order the series arrive in
+		return "max(max_over_time(" + sel + " | logfmt | unwrap v " + rng + ")) or min(min_over_time(" + sel + " | logfmt | unwrap v " + rng + "))"
 	case "sumdep":
 		// containers of one app of which some carry dep="" and others no dep label at all: an empty value is not a missing label
 		return "sum by (app, dep) (count_over_time(" + sel + rng + "))"
@@ -504,7 +507,7 @@ func allPerms(n int) [][]int {
 
 func genDeterminism(r *rand.Rand) dockerIn {
 	in := baseIn()
-	in.Shape = []string{"log", "count", "sumcount", "log", "sumdep"}[r.Intn(5)]
+	in.Shape = []string{"log", "count", "sumcount", "log", "sumdep", "maxnan"}[r.Intn(6)]
 	in.Start, in.End, in.Step, in.Range = []int{1700000000, 0}, []int{1700000060, 0}, 20, 600
 	nc := 2 + r.Intn(4)
 	sec := 1700000001
@@ -523,7 +526,14 @@ func genDeterminism(r *rand.Rand) dockerIn {
 		}
 		in.Ctrs = append(in.Ctrs, ctr)
 	}
-	if r.Intn(3) == 0 {
+	if in.Shape == "maxnan" {
+		for c := range in.Ctrs {
+			v := []string{"NaN", "0.5", "2", "NaN", "-1"}[(c+r.Intn(2))%5]
+			for j := range in.Ctrs[c].Frames {
+				in.Ctrs[c].Frames[j].Msg = B("v=" + v)
+			}
+		}
+	} else if r.Intn(3) == 0 {
 		// every container logs at the same instants and the limit cuts a tie group: which records come back depends on
 		// how ties are broken (by container order, never by arrival)
 		total := 0
